@@ -22,7 +22,7 @@ DIR = ('randmio_dir', 'randmio_dir_connected', 'latmio_dir', 'latmio_dir_connect
 LAT = ('latmio_und', 'latmio_und_connected', 'latmio_dir', 'latmio_dir_connected')
 CONNECTED = ('randmio_und_connected', 'randmio_dir_connected', 'latmio_und_connected', 'latmio_dir_connected')
 SIGNED = ('randmio_und_signed', 'randmio_dir_signed')
-INTERNAL_ERRORS = (IndexError, TypeError, ValueError, ZeroDivisionError, RecursionError, KeyError, AttributeError, OverflowError,
+INTERNAL_ERRORS = (IndexError, TypeError, ValueError, ZeroDivisionError, RecursionError, KeyError, AttributeError, OverflowError, NameError, FloatingPointError,
                    np.exceptions.DTypePromotionError if hasattr(np, 'exceptions') else TypeError)
 
 
